@@ -253,6 +253,42 @@ def diag_class(text):
     return "other"
 
 
+def interact_part(rep, rng):
+    """arguments of `interact` methods: model-supplied variables (getters, a channel end) may stand anywhere in the user's parameter list;
+    the user method must still be called with every value at the position of the parameter it was declared for.  Inputs and the
+    projection of the real expansion are those of C14's H-tie; the oracle here is C07's (delivery by position)."""
+    import itertools
+    import C14
+    placements = [k for n in (1, 2, 3) for k in itertools.product("OPGE", repeat=n) if k.count("E") <= 1]
+    cases = []
+    for j, kinds in enumerate(placements):
+        for r in range(1 if rep.tier == "quick" else 4):
+            cases.append(C14.mk_case(rng, kinds, gen_impl.LIBS[(j + r) % 4], irregular=False, interact=True, ret=(False if "E" in kinds else None)))
+    res = hook.run_parallel([("actor", [C14.attr_of(c), C14.item_of([c])]) for c in cases], tag="c07i", shards=8)
+    if res is None:
+        raise Infra("interact expansion batch timed out")
+    for i, (c, (cls, f)) in enumerate(zip(cases, res)):
+        rep.evaluations += 1
+        rep.count("interact_placement", c["kinds"])
+        rep.nontrivial.add(("interact", c["kinds"], bool(c["ret"])))
+        real = C14.real_projection(cls, f[0] if f else "", c)
+        if real["cls"] != "OK":
+            continue            # refusals and unrecognised shapes are C14's / C19's business
+        want = ["_".join(C14.leaves(q["tree"])) or "__" for q in c["params"]]
+        keep = [w for w, q in zip(want, c["params"]) if q["kind"] not in "GE"]
+        rd = real["routing_detail"]
+        probs = []
+        if rd["call_args"] != want:
+            probs.append("the user method is called with %s, its parameters are declared in the order %s" % (rd["call_args"], want))
+        if sorted(rd["msg"] or []) != sorted(want) or sorted(rd["binds"] or []) != sorted(want):
+            probs.append("message fields %s / arm bindings %s are not exactly the parameters %s" % (rd["msg"], rd["binds"], want))
+        if [n for n, _ in real["params"]] != keep:
+            probs.append("handle parameters %s are not the caller-supplied parameters %s in their order" % ([n for n, _ in real["params"]], keep))
+        if not rep.oblige(not probs):
+            rep.violation("interact_%d_%s" % (i, c["kinds"]), {"what": probs, "attr": C14.attr_of(c), "item": C14.item_of([c]), "lib": c["lib"],
+                          "expected": "every argument reaches the parameter it was passed for (positions %s)" % want, "observed": real}, found=True)
+
+
 def run(rep):
     rng = random.Random(rep.seed)
     rep.extra["rule"] = RULE
@@ -268,6 +304,7 @@ def run(rep):
         rep.violation("theorems", {"what": "property theorem file no longer checks", "problems": problems, "hygiene": bad}, found=False)
     # 2. function-level tie of the flattening model
     flatten_tie(rep, rng)
+    interact_part(rep, random.Random(rep.seed + 7))
     # 3. real expansions
     cs = impl_configs(rng, rep.tier)
     wit = []
